@@ -431,6 +431,9 @@ func (t *Transaction) Replace(handle Handle, query, sort, repl bsonkit.Doc, upse
 }
 
 func (t *Transaction) replace(handle Handle, oplog, namespace *mongokit.Collection, query, repl, sort bsonkit.Doc, upsert bool) (*Result, error) {
+	// clone query as an upsert stores its values in the new document
+	query = bsonkit.Clone(query)
+
 	// replace document
 	res, err := namespace.Replace(query, repl, sort)
 	if err != nil {
@@ -529,6 +532,11 @@ func (t *Transaction) Update(handle Handle, query, sort, update bsonkit.Doc, ski
 }
 
 func (t *Transaction) update(handle Handle, oplog, namespace *mongokit.Collection, query, update, sort bsonkit.Doc, upsert bool, skip, limit int, arrayFilters bsonkit.List) (*Result, error) {
+	// clone query and update as their values are stored in the modified or
+	// upserted documents
+	query = bsonkit.Clone(query)
+	update = bsonkit.Clone(update)
+
 	// perform update
 	res, err := namespace.Update(query, update, sort, skip, limit, arrayFilters)
 	if err != nil {
